@@ -525,6 +525,19 @@ def rule_generators(ck):
         if isinstance(s, ast.Call) and s.args and N.nf(s.args[0]) == want:
             ok = True
     (oo.ok('d = [snap](scale*h)') if ok else oo.fail('the step `%s` is not scale*h (optionally snapped)' % u(d)[:80]))
+    # the power-of-ten scale must cover the decimals of the start AND of the step, otherwise scale*start / scale*h are not integers
+    oo = ck.ob('C02-D5.decimals', f, scale, rets[0])
+    pows = [n for n in ast.walk(scale) if isinstance(n, ast.BinOp) and isinstance(n.op, ast.Pow) and const_value(n.left) == 10]
+    if not pows:
+        oo.unknown('no power-of-ten scale found in `%s`' % u(scale)[:80])
+    else:
+        names = {n.id for p_ in pows for n in ast.walk(p_.right) if isinstance(n, ast.Name) and getattr(n, '_param', False)}
+        if h in names and start in names:
+            oo.ok('decimal places of start and step')
+        else:
+            oo.fail('the power-of-ten scale `%s` is derived from the decimals of %s only; a step with more decimals whose reciprocal is not '
+                    'an integer (start 5.0, step 0.07: scale = 1/0.07 = 14.2857) makes scale*start a non-integer, so the generated edges '
+                    '(4.97, 5.04, ...) are not the decimal grid start + k*step' % (u(pows[0])[:60], sorted(names) or 'nothing'))
     # magnitude_bins forwards (start, end, dmw) in order
     g = P.func('csep.core.regions.magnitude_bins')
     rets = [r for r in returns(g) if r.value is not None]
